@@ -77,6 +77,13 @@ type pgroup struct {
 	idxs []int // declaration indices (0-based) of the flat parameters it holds
 	typ  reflect.Type
 	nest int
+	tree []pnode // fields of the object, in order (objects only)
+}
+
+// pnode is one field of a parameter object: a flat parameter (idx >= 0) or a nested object.
+type pnode struct {
+	idx  int
+	kids []pnode
 }
 
 // rgroup is one Go-level result: a positional value or a result object.
@@ -175,6 +182,41 @@ func inStruct(fields []reflect.StructField, nest int) reflect.Type {
 	return t
 }
 
+// objFields builds the fields of the parameter object holding the flat parameters i..j-1 whose
+// nested-object paths (Param.P) agree on the first depth elements.
+func objFields(fn *cat.Fn, i, j, depth int) ([]reflect.StructField, []pnode, error) {
+	var fields []reflect.StructField
+	var tree []pnode
+	for x := i; x < j; {
+		p := fn.Ps[x]
+		if len(p.P) < depth {
+			return nil, nil, fmt.Errorf("parameter %d: nested-object path shorter than that of its neighbours", x)
+		}
+		if len(p.P) == depth {
+			fields = append(fields, reflect.StructField{
+				Name: fmt.Sprintf("F%d", x),
+				Type: paramType(p),
+				Tag:  reflect.StructTag(paramTag(p)),
+			})
+			tree = append(tree, pnode{idx: x})
+			x++
+			continue
+		}
+		y := x + 1
+		for y < j && len(fn.Ps[y].P) > depth && fn.Ps[y].P[depth] == p.P[depth] {
+			y++
+		}
+		sub, kids, err := objFields(fn, x, y, depth+1)
+		if err != nil {
+			return nil, nil, err
+		}
+		fields = append(fields, reflect.StructField{Name: fmt.Sprintf("N%d", x), Type: inStruct(sub, 0)})
+		tree = append(tree, pnode{idx: -1, kids: kids})
+		x = y
+	}
+	return fields, tree, nil
+}
+
 func outStruct(fields []reflect.StructField) reflect.Type {
 	fs := append([]reflect.StructField{{Name: "Out", Type: outType, Anonymous: true}}, fields...)
 	return reflect.StructOf(fs)
@@ -197,17 +239,15 @@ func newLayout(fn *cat.Fn) (*layout, error) {
 				j++
 			}
 		}
-		var fields []reflect.StructField
 		var idxs []int
 		for x := i; x < j; x++ {
-			fields = append(fields, reflect.StructField{
-				Name: fmt.Sprintf("F%d", x),
-				Type: paramType(fn.Ps[x]),
-				Tag:  reflect.StructTag(paramTag(fn.Ps[x])),
-			})
 			idxs = append(idxs, x)
 		}
-		l.ps = append(l.ps, pgroup{obj: true, idxs: idxs, typ: inStruct(fields, fn.Enc.Nest), nest: fn.Enc.Nest})
+		fields, tree, err := objFields(fn, i, j, 0)
+		if err != nil {
+			return nil, err
+		}
+		l.ps = append(l.ps, pgroup{obj: true, idxs: idxs, typ: inStruct(fields, fn.Enc.Nest), nest: fn.Enc.Nest, tree: tree})
 		i = j
 	}
 	// results
@@ -316,9 +356,17 @@ func (l *layout) decode(args []reflect.Value) [][]univ.Prov {
 		for n := 0; n < g.nest; n++ {
 			v = v.Field(1)
 		}
-		for fi, idx := range g.idxs {
-			one(idx, v.Field(fi+1))
+		var walk func(v reflect.Value, tree []pnode)
+		walk = func(v reflect.Value, tree []pnode) {
+			for fi, nd := range tree {
+				if nd.idx >= 0 {
+					one(nd.idx, v.Field(fi+1))
+				} else {
+					walk(v.Field(fi+1), nd.kids)
+				}
+			}
 		}
+		walk(v, g.tree)
 	}
 	return out
 }
